@@ -33,8 +33,14 @@ def refSpans (cfg : LexCfg) (body : List Char) : List (Nat × Nat) :=
 
 -- models lexer/util.rs::cycle_reference (= Model::cycle_reference with the model's locale and
 -- language in `cfg`), lexer included
+/-- the spans of a cell text: only a text starting with `=` is tokenised -/
+def valueSpans (cfg : LexCfg) (value : List Char) : List (Nat × Nat) :=
+  match value with
+  | c :: body => if c = '=' then refSpans cfg body else []
+  | [] => []
+
 def cycleReferenceLex (cfg : LexCfg) (value : List Char) (start stop : Nat) :
     Option (List Char × Nat × Nat) :=
-  cycleReference cfg.cc (refSpans cfg value.tail) value start stop
+  cycleReference cfg.cc (valueSpans cfg value) value start stop
 
 end IronCalc.F4
